@@ -122,8 +122,99 @@ def importfrom_table(prog: Program, ctx: Ctx, rule: str) -> None:
             target = f"{base}.{name}"
             want = [] if target == f"{current.attrs['path']}.{local}" else [(local, target)]
         n_rows += 1
-        ok = got == want and (star or not want or imports.get(want[0][0]) == want[0][1])
+        # the import map records the name whenever Python binds it, also when no alias is created because it would point at itself
+        # (`from . import sub as sub`); only the bare `from . import sub` of an __init__ module - the sub-module itself - is left out
+        bare_own_submodule = (not in_class) and init and level == 1 and module in (None,) and not asname
+        map_ok = True if (star or bare_own_submodule) else imports.get(local) == target
+        ok = got == want and map_ok
         scope = f"class in {mpath}" if in_class else mpath
         ctx.ob(rule, f"importfrom|{scope}{' (__init__)' if init else ''}|{src}", ok,
                f"`{src}` in {scope}{' (__init__)' if init else ''}: griffe binds {got}" + ("" if ok else f" (import map {imports}); Python binds {want}"), where(vif))
     ctx.expect_min(rule, n_rows, 150)
+
+
+def wildcard_table(prog: Program, ctx: Ctx, rule: str) -> None:
+    """`from m import *` decision table: GriffeLoader.expand_wildcards evaluated end to end on small packages built with the models' constructors.
+
+    At run time the statement rebinds every public name of m at its own line: it displaces an earlier binding of the same name (a definition, an
+    explicit import, an earlier wildcard import) and is displaced by a later one; private names are not imported; the placeholder goes away."""
+    import itertools
+    from pathlib import PurePosixPath as _PP
+
+    from sa.absint import Native, Raised
+
+    ctx.rule(rule, "expand_wildcards: each public name of the star-imported module becomes an alias placed at the line of the import statement; an "
+                   "existing member (definition, explicitly imported name, name from an earlier wildcard import) is displaced exactly when the "
+                   "wildcard import sits on a later line (missing line = 0); a name is never aliased to itself; private names stay out")
+    L = "_griffe.loader.GriffeLoader"
+    xw = prog.function(f"{L}.expand_wildcards")
+    itw = Interp(prog, max_depth=60, max_steps=3_000_000)
+    MD = "_griffe.models"
+
+    def new(cls: str, *a: object, **k: object) -> Obj:
+        return itw._construct(prog.cls(f"{MD}.{cls}"), list(a), dict(k))
+
+    def setm(o: Obj, n: str, v: Obj) -> None:
+        itw.call(prog.lookup_method(o.cls, "set_member")[0], o, n, v)
+
+    def world() -> tuple[Obj, Obj, Obj, Obj, Obj]:
+        coll = itw._construct(prog.cls("_griffe.collections.ModulesCollection"), [], {})
+        pkg = new("Module", "pkg", filepath=_PP("/s/pkg/__init__.py"))
+        setm(coll, "pkg", pkg)
+        a, b, c = (new("Module", n_, filepath=_PP(f"/s/pkg/{n_}.py")) for n_ in "abc")
+        for m_ in (a, b, c):
+            setm(pkg, m_.attrs["name"], m_)
+        for nm, ln in (("x", 1), ("y", 2), ("_p", 3)):
+            setm(a, nm, new("Attribute", nm, lineno=ln, endlineno=ln))
+        for nm, ln in (("x", 1), ("w", 2)):
+            setm(c, nm, new("Attribute", nm, lineno=ln, endlineno=ln))
+        return coll, pkg, a, b, c
+
+    def run_and_describe(coll: Obj, pkg: Obj, b: Obj) -> dict:
+        loader = Obj(prog.cls(L), {"modules_collection": coll, "extensions": Obj(None, {"call": Native(lambda *_a, **_k: None)})}, label="loader")
+        itw.steps = 0
+        try:
+            itw.call(xw, loader, pkg)
+            return {k_: (v_.cls.name, v_.attrs.get("target_path"), v_.attrs.get("alias_lineno") if v_.cls.name == "Alias" else v_.attrs.get("lineno")) for k_, v_ in b.attrs["members"].items()}
+        except Raised as r:
+            return {"<raises>": r.exc}
+
+    n_rows = 0
+    for old_kind, old_line, star_line in itertools.product(("none", "attribute", "explicitly imported name", "alias back to the importing module"), (None, 2, 4), (1, 3, 5)):
+        if old_kind == "none" and old_line is not None:
+            continue
+        coll, pkg, a, b, _c = world()
+        if old_kind == "alias back to the importing module":
+            setm(a, "z", new("Alias", "z", "pkg.b.z", lineno=4, endlineno=4))  # `from pkg.b import z` in a: star-importing it into b would alias b.z to itself
+            setm(b, "z", new("Attribute", "z", lineno=old_line, endlineno=old_line))
+        elif old_kind == "attribute":
+            setm(b, "x", new("Attribute", "x", lineno=old_line, endlineno=old_line))
+        elif old_kind == "explicitly imported name":
+            setm(b, "x", new("Alias", "x", "other.x", lineno=old_line, endlineno=old_line))
+            b.attrs["imports"]["x"] = "other.x"  # what `from other import x` records
+        setm(b, "pkg/a/*", new("Alias", "pkg/a/*", "pkg.a", lineno=star_line, endlineno=star_line))
+        got = run_and_describe(coll, pkg, b)
+        star_wins = star_line > (old_line or 0)
+        want = {"y": ("Alias", "pkg.a.y", star_line)}
+        if old_kind == "alias back to the importing module":
+            want["x"] = ("Alias", "pkg.a.x", star_line)
+            want["z"] = ("Attribute", None, old_line)  # never replaced by an alias to itself
+        elif old_kind == "none" or star_wins:
+            want["x"] = ("Alias", "pkg.a.x", star_line)
+        else:
+            want["x"] = ("Attribute", None, old_line) if old_kind == "attribute" else ("Alias", "other.x", old_line)
+        n_rows += 1
+        ctx.ob(rule, f"wildcard|existing={old_kind}@{old_line}|star@{star_line}", got == want,
+               f"`from pkg.a import *` on line {star_line} of pkg.b, existing member: {old_kind} on line {old_line}: members of pkg.b {got}; at run time {want}", where(xw))
+    # two wildcard imports in one module exposing the same name: the later statement rebinds it
+    for line_a, line_c in ((1, 3), (3, 1)):
+        coll, pkg, a, b, c = world()
+        setm(b, "pkg/a/*", new("Alias", "pkg/a/*", "pkg.a", lineno=line_a, endlineno=line_a))
+        setm(b, "pkg/c/*", new("Alias", "pkg/c/*", "pkg.c", lineno=line_c, endlineno=line_c))
+        got = run_and_describe(coll, pkg, b)
+        later = ("pkg.a.x", line_a) if line_a > line_c else ("pkg.c.x", line_c)
+        want = {"x": ("Alias", *later), "y": ("Alias", "pkg.a.y", line_a), "w": ("Alias", "pkg.c.w", line_c)}
+        n_rows += 1
+        ctx.ob(rule, f"wildcard|two star imports|a@{line_a}|c@{line_c}", got == want,
+               f"`from pkg.a import *` (line {line_a}) and `from pkg.c import *` (line {line_c}) in pkg.b, both exposing x: members of pkg.b {got}; at run time {want}", where(xw))
+    ctx.expect_min(rule, n_rows, 25)
